@@ -4,8 +4,10 @@ import (
 	"bytes"
 	"fmt"
 	"math/rand/v2"
+	"os"
 	"strings"
 	"testing"
+	"time"
 
 	"github.com/insomniacslk/dhcp/rfc1035label"
 	"verif/harness/mon"
@@ -33,6 +35,7 @@ func eqNames(a, b []string) bool {
 
 // judgeBytes: decoding any byte string either fails or yields the names the RFC assigns.
 func judgeBytes(r *mon.Rec, src string, b []byte) {
+	r.Current(map[string]any{"kind": "bytes", "wire": mon.HexBytes(b)})
 	r.Eval(1)
 	res := reflabel.Decode(b)
 	var l *rfc1035label.Labels
@@ -362,6 +365,9 @@ func mutate(r *rand.Rand, b []byte) []byte {
 func TestCheck(t *testing.T) {
 	r := mon.New("C19")
 	defer r.Flush()
+	if os.Getenv("VERIF_REPLAY") == "" {
+		r.Watchdog(60 * time.Second)
+	}
 	var rp replay
 	if mon.ReplayCase(&rp) {
 		switch rp.Kind {
